@@ -160,7 +160,7 @@ def handle (j : Json) : Json :=
   let v := parseVal (getD j "value" .null)
   let inDom := hasTypeB Δ t v && wfCase Δ o
   let enc := encode Δ t v
-  let (r, σ) := genRoot Δ o 100000 t
+  let (r, σ) := genRoot Δ o (enoughFuel Δ t) t    -- `gen_finite`: never `nofuel`
   let excl0 := (if heredAll quotedIn Δ t then ["HasQuoted"] else []) ++ (if heredAll dupIn Δ t then ["DupNames"] else []) ++
     (if hasRecs t || Δ.any (fun d => hasRecsFs d.2) then ["RecContainer"] else [])
   let optBr := (if all then ["useAll"] else []) ++ (if o.throwCycle then ["opt.throw"] else []) ++ (if o.cust then ["opt.cust"] else []) ++
